@@ -22,8 +22,10 @@ def _real():
 # input <-> real objects
 # ----------------------------------------------------------------------------------------
 # region JSON: {'lines': [{'id': str, 'box': [l, t, r, b], 'bl': bool}], 'subs': [region, …]}
-# case input : {'thr': int, 'mcw': int|None, 'rid': str|None, 'parent': None|{'id': str|None},
+# case input : {'thr': int|None, 'mcw': int|None, 'rid': str|None, 'parent': None|{'id': str|None},
 #               'region': region, 'dx': int, 'dy': int}
+# thr / mcw None: the argument is NOT passed to the real function (its default applies); the model then uses the
+# default regenerated from the source (Generated/C18.lean), the harness never copies it.
 
 def _all_lines(region: Dict[str, Any]) -> List[Dict[str, Any]]:
     """the lines in get_lines() order: sub-regions first, then own lines"""
@@ -71,7 +73,9 @@ def _run_real(inp: Dict[str, Any], region: Dict[str, Any]) -> Dict[str, Any]:
         if inp.get('parent') is not None:
             parent = pdm.PageXMLPage(inp['parent'].get('id'))
             reg.set_parent(parent)
-        kw = {'gap_threshold': inp['thr']}
+        kw = {}
+        if inp.get('thr') is not None:
+            kw['gap_threshold'] = inp['thr']
         if inp.get('mcw') is not None:
             kw['min_column_width'] = inp['mcw']
         old = sys.getrecursionlimit()
@@ -94,7 +98,7 @@ def _run_real(inp: Dict[str, Any], region: Dict[str, Any]) -> Dict[str, Any]:
 
 def _model_req(inp: Dict[str, Any], region: Dict[str, Any]) -> Dict[str, Any]:
     return {'p': 'C18', 'op': 'split',
-            'args': {'thr': inp['thr'], 'mcw': 20 if inp.get('mcw') is None else inp['mcw'],
+            'args': {'thr': inp.get('thr'), 'mcw': inp.get('mcw'),     # null = the source's default (Generated.C18)
                      'rid': inp.get('rid'), 'parent': inp.get('parent'), 'region': _strip_region(region)}}
 
 
@@ -128,6 +132,16 @@ def _components(lines: List[Dict[str, Any]], thr: int) -> List[List[str]]:
     return [sorted(g) for g in groups]
 
 
+def _effective_thr(inp: Dict[str, Any]) -> int:
+    """the gap threshold in effect: the one passed, else the default the real function declares (its public
+    interface, read with inspect — not from the model)"""
+    if inp.get('thr') is not None:
+        return inp['thr']
+    import inspect
+    cp, _ = _real()
+    return inspect.signature(cp.split_lines_on_column_gaps).parameters['gap_threshold'].default
+
+
 ID_TAIL = re.compile(r'^((?:-text_region-\d+-\d+-\d+-\d+)*)-column-(\d+)-(\d+)-(\d+)-(\d+)$')
 
 
@@ -150,14 +164,87 @@ class C18(Check):
                   'translation equivariance. For lines of positive width and every threshold / minimum width: no '
                   'exception, no two lines across a clean gap of max(thr,2) share a column, every gap-connected '
                   'group shares one column. Not proved: that the box numbers inside a column id are those of the '
-                  'final box (they are not when a zero-width line is appended to a column of a parentless region).')
+                  'final box (they are not when a zero-width line is appended to a column of a parentless region). '
+                  'Defaults and literals of the source (gap_threshold / overlap_threshold / min_column_width defaults, '
+                  'the 2 of max(gap_threshold, 2), min_column_width=0 of the recursive call and the 0 of its guard, the '
+                  'threshold reaching is_horizontally_overlapping) are REGENERATED on every run (translate() -> '
+                  'Generated/C18.lean); proofs use only the named relations C18_consts_* about them; cases tagged '
+                  'default-thr / mcw None call the real function without the argument and the model follows the source.')
     assumptions = ['parse_derived_coords: the bounding box of the hull is the union of the input boxes (C09), no '
                    'QhullError since fc690f6 (sampled by the correspondence, also on zero-size boxes)',
-                   'float comparison overlap/width > 0.5 agrees with overlap*2 > width for pixel sizes < 2^26',
+                   'float comparison overlap/width > t agrees with overlap*q > p*width (t = p/q the decimal literal of the '
+                   'source) for pixel sizes < 2^26',
                    'list.sort with PageXMLTextRegion.__lt__ = insertion sort with the same comparator; only reached '
                    'with horizontally disjoint columns, on which the comparator is a strict total order',
                    'get_lines of a region without reading order and without tables: sub-region lines first, then own']
     nontrivial_rule = 'distinct inputs with at least two lines (single-line and empty regions counted as trivial)'
+
+    # ---------------------------------------------------------------- constants regenerated from the source
+    def translate(self):
+        """defaults and literals of column_parser.py that the model depends on, read with `ast` on every run"""
+        from harness import translate as tr
+        cp = 'pagexml/column_parser.py'
+        dm = 'pagexml/model/pagexml_document_model.py'
+        E = tr.TranslateError
+        d = tr.func_defaults(cp, 'split_lines_on_column_gaps')
+        for k in ('gap_threshold', 'overlap_threshold', 'min_column_width'):
+            if k not in d:
+                raise E(f'split_lines_on_column_gaps has no default for {k}')
+        gap, mcw = tr.as_int(d['gap_threshold']), tr.as_int(d['min_column_width'])
+        ovl = d['overlap_threshold']
+        # the parameters travel by name: split -> find_column_gaps -> determine_freq_gap_interval,
+        # split -> sort_lines_in_column_ranges -> within_column, split -> handle_extra_lines -> split
+        def named(fn, callee, param, pos, var):
+            a = tr.call_argument(cp, fn, callee, param, pos)
+            if a != ('NAME', var):
+                raise E(f'{fn}: {callee}(... {param}) is {a!r}, expected the variable {var}')
+        named('split_lines_on_column_gaps', 'find_column_gaps', 'gap_threshold', 1, 'gap_threshold')
+        named('find_column_gaps', 'determine_freq_gap_interval', 'gap_threshold', 1, 'gap_threshold')
+        named('split_lines_on_column_gaps', 'sort_lines_in_column_ranges', 'overlap_threshold', 2, 'overlap_threshold')
+        named('sort_lines_in_column_ranges', 'within_column', 'overlap_threshold', 2, 'overlap_threshold')
+        named('split_lines_on_column_gaps', 'handle_extra_lines', 'gap_threshold', 3, 'gap_threshold')
+        named('split_lines_on_column_gaps', 'handle_extra_lines', 'min_column_width', 4, 'min_column_width')
+        named('handle_extra_lines', 'split_lines_on_column_gaps', 'gap_threshold', 1, 'gap_threshold')
+        tr.literals_in(cp, 'within_column', 'overlap / line.coords.width > overlap_threshold')
+        tr.literals_in(cp, 'split_lines_on_column_gaps', 'col_range["end"] - col_range["start"] >= min_column_width')
+        # the recursive call: min_column_width literal, overlap_threshold left to its default
+        rec_mcw = tr.call_argument(cp, 'handle_extra_lines', 'split_lines_on_column_gaps', 'min_column_width', 3)
+        if rec_mcw == 'DEFAULT' or isinstance(rec_mcw, tuple):
+            raise E(f'handle_extra_lines: the recursive call passes min_column_width={rec_mcw!r}, expected a literal')
+        rec_mcw = tr.as_int(rec_mcw)
+        if tr.call_argument(cp, 'handle_extra_lines', 'split_lines_on_column_gaps', 'overlap_threshold', 2) != 'DEFAULT':
+            raise E('handle_extra_lines: the recursive call passes an overlap_threshold (the model uses the default)')
+        rec_guard = tr.as_int(tr.literal_in(cp, 'handle_extra_lines', 'min_column_width > _N0'))
+        min_gap = tr.as_int(tr.literal_in(cp, 'determine_freq_gap_interval',
+                                          'next_pixel - curr_pixel < max(gap_threshold, _N0)'))
+        # is_horizontally_overlapping as reached from find_overlapping_columns, handle_extra_lines and (columns.sort())
+        # PageXMLTextRegion.__lt__: one threshold in the model, so the three call sites have to agree
+        thrs = {tr.effective_argument(cp, 'find_overlapping_columns', 'is_horizontally_overlapping', 'threshold', 2, dm),
+                tr.effective_argument(cp, 'handle_extra_lines', 'is_horizontally_overlapping', 'threshold', 2, dm),
+                tr.effective_argument(dm, 'PageXMLTextRegion.__lt__', 'is_horizontally_overlapping', 'threshold', 2, dm)}
+        if len(thrs) != 1:
+            raise E(f'is_horizontally_overlapping is reached with different thresholds: {sorted(thrs)}')
+        body = tr.HEADER.format(
+            src=f'{cp}: defaults of split_lines_on_column_gaps, max(gap_threshold, N) in determine_freq_gap_interval, '
+                f'the recursive call and its guard in handle_extra_lines; {dm}: threshold of '
+                f'is_horizontally_overlapping as called from column_parser / PageXMLTextRegion.__lt__') + (
+            'namespace Pagexml.Generated.C18\n\n'
+            '/-- default `gap_threshold` of split_lines_on_column_gaps -/\n'
+            f'def defaultGapThreshold : Int := {tr.lean_int(gap)}\n\n'
+            '/-- default `min_column_width` of split_lines_on_column_gaps -/\n'
+            f'def defaultMinColumnWidth : Int := {tr.lean_int(mcw)}\n\n'
+            '/-- default `overlap_threshold` (p, q) of split_lines_on_column_gaps, handed down to within_column -/\n'
+            f'def withinThr : Int × Int := {tr.lean_ratio(ovl)}\n\n'
+            '/-- `N` of `next_pixel - curr_pixel < max(gap_threshold, N)` in determine_freq_gap_interval -/\n'
+            f'def minGapPixels : Int := {tr.lean_int(min_gap)}\n\n'
+            '/-- `min_column_width` passed by the recursive call in handle_extra_lines -/\n'
+            f'def recMinColumnWidth : Int := {tr.lean_int(rec_mcw)}\n\n'
+            '/-- `N` of the guard `if min_column_width > N:` around the recursive call -/\n'
+            f'def recGuard : Int := {tr.lean_int(rec_guard)}\n\n'
+            '/-- threshold (p, q) with which column_parser and `__lt__` reach is_horizontally_overlapping -/\n'
+            f'def colHOverlapThr : Int × Int := {tr.lean_ratio(thrs.pop())}\n\n'
+            'end Pagexml.Generated.C18\n')
+        return {'PagexmlModel/Generated/C18.lean': body}
 
     # ---------------------------------------------------------------- generation
     def cases(self, rng: random.Random, tier: str) -> Iterable[Case]:
@@ -264,6 +351,11 @@ class C18(Check):
 
     def _grid(self, rng, mk, ln):
         thr = self._thr(rng)
+        # every fifth grid is split WITHOUT passing gap_threshold: the layout is still built around `thr` (gaps at
+        # thr, thr + 1, ...), the function's own default decides, and oracle and model follow that default
+        dflt = rng.random() < 0.2
+        if dflt:
+            thr = rng.choice([thr, 39, 40, 41, 49, 50, 51, 59, 60, 61])
         rows, ncols = rng.randint(1, 8), rng.randint(1, 4)
         x = rng.choice([0, 0, 1, 5, 10, thr - 1, thr, thr + 1, rng.randint(0, 300)])
         x = max(0, x)
@@ -284,8 +376,9 @@ class C18(Check):
         if rng.random() < 0.5:
             rng.shuffle(lines)
         rid, parent = self._ctx(rng)
-        mk(self._nest(rng, lines), thr=thr, rid=rid, parent=parent,
-           dx=rng.choice([0, 1, thr, 200, rng.randint(0, 600)]), dy=rng.randint(0, 300), tags=['grid'])
+        mk(self._nest(rng, lines), thr=None if dflt else thr, rid=rid, parent=parent,
+           dx=rng.choice([0, 1, thr, 200, rng.randint(0, 600)]), dy=rng.randint(0, 300),
+           tags=['grid', 'default-thr'] if dflt else ['grid'])
 
     def _multi(self, rng, mk, ln):
         thr = self._thr(rng)
@@ -328,8 +421,10 @@ class C18(Check):
         span = rng.choice([100, 400, 1000, 1500])
         lines = [self._rand_line(rng, ln, i, span) for i in range(n)]
         rid, parent = self._ctx(rng)
-        mk(self._nest(rng, lines), thr=thr, rid=rid, parent=parent,
-           dx=rng.choice([0, 1, 49, 50, rng.randint(0, 600)]), dy=rng.randint(0, 300), tags=['random'])
+        dflt = rng.random() < 0.1
+        mk(self._nest(rng, lines), thr=None if dflt else thr, rid=rid, parent=parent,
+           dx=rng.choice([0, 1, 49, 50, rng.randint(0, 600)]), dy=rng.randint(0, 300),
+           tags=['random', 'default-thr'] if dflt else ['random'])
 
     def _malformed(self, rng, mk, ln):
         n = rng.randint(1, 7)
@@ -390,13 +485,14 @@ class C18(Check):
     @staticmethod
     def in_quantifier(inp: Dict[str, Any]) -> bool:
         lines = _all_lines(inp['region'])
-        return (inp.get('mcw') is None and 1 <= inp['thr'] <= 200 and
+        thr = _effective_thr(inp)
+        return (inp.get('mcw') is None and isinstance(thr, int) and 1 <= thr <= 200 and
                 all(l['box'][0] < l['box'][2] and l['box'][1] < l['box'][3] and l['box'][0] >= 0 and l['box'][1] >= 0
                     for l in lines) and len({l['id'] for l in lines}) == len(lines))
 
     def _judge(self, inp, region, res, bad, which):
         """the statement on one run of the real code"""
-        thr = inp['thr']
+        thr = _effective_thr(inp)
         cls = f'thr={thr}' if thr == 1 else 'thr>=2'
         lines = _all_lines(region)
         if 'ok' not in res:
